@@ -86,8 +86,6 @@ def pair_traces(ctx, rng, quick, start_id):
     traces, meta = [], []
     for h in heads:
         for f in followers:
-            if quick and rng.random() < 0.7:
-                continue
             if (h.upper(), f.upper()) in (('CREATE', 'OR'),):
                 pass
             hs = recase(h, rng.randrange(4), rng)
